@@ -139,3 +139,15 @@ check('C11',
       'order of all pairs of ~1500 xs:duration values against the four-reference-dateTime definition. Calendar validity of 230 lexical dates.',
       'reference mc/models/timeline.py (validated against datetime.toordinal for every day of years 1..9999); an operation leaving the supported year range may raise OverflowError/FODT0001',
       'DESIGN.md section 3 C11')
+check('C07',
+      'bounded-exhaustive enumeration of comparison operand pairs, sequences and boolean contexts against the specification tables',
+      'A catalogue of 106 atomic values covering every comparable family (numeric tower incl. derived integers, 2^53+1, float/double/decimal roundings, '
+      'NaN/INF/-0; strings and derived strings; anyURI; untypedAtomic; boolean; dateTime/date/time with and without timezone under a fixed implicit '
+      'timezone -05:00; the five gregorian types; the three duration types; QName; hexBinary/base64Binary). ALL ordered pairs x six value-comparison '
+      'operators (as variables and inline) and x six general operators; all pairs of sequences of length 0..2 over a 16-value core x six general '
+      'operators (thorough: left side up to length 3 over an 8-value core). XPath 1.0 rules: all pairs of 25 operands (numbers, strings, booleans, six '
+      'node-sets) x six operators on the XPath 1.0 parser, cross-checked with libxml2, and on the XPath 2.0 parser in compatibility mode (XPath 2.0 '
+      'section 3.5.2 rules). EBV of every value, every pair of values and a node through boolean(), not(), if, and, or, quantifier; and/or over all pairs '
+      'of 18 sequences with either-operand-first error slack; six Boolean-algebra identities evaluated by the implementation.',
+      'reference mc/models/atomcmp.py; for a general comparison whose reference outcome is an error, an error of any code or false is accepted (the property fixes when the result is true); order operators on binaries and untyped-to-QName/binary casts are not judged',
+      'DESIGN.md section 3 C07')
